@@ -25,6 +25,12 @@ fn main() {
         None => std::process::exit(97),
     };
     let args: Vec<Vec<u8>> = std::env::args_os().skip(1).map(|a| a.as_bytes().to_vec()).collect();
+    // on request a mark on the standard output shared with the caller: where in its own output did this run happen?
+    if std::env::var_os("VREC_ECHO").is_some() {
+        use std::io::Write;
+        let _ = std::io::stdout().write_all(b"X|\0");
+        let _ = std::io::stdout().flush();
+    }
     let cwd = std::env::current_dir().map(|p| p.as_os_str().as_bytes().to_vec()).unwrap_or_default();
     let seq = std::fs::read(&log).map(|c| c.iter().filter(|b| **b == b'\n').count()).unwrap_or(0);
     let mode = std::env::var("VREC_MODE").unwrap_or_else(|_| "full".into());
